@@ -59,6 +59,12 @@ CHECKS = {
         "text": "The command list is parsed at check time from the switch in Server.command, the name tests of handleInputCommand/netServe, the script dispatch tables and core/commands.json (a name without an argument template is an INFRA error). For every (command instance, wrapper) the harness measures on a real leader whether it modifies data, is served, or discloses object data; these tables are constants of Gates.tla. TLC checks that Gates!Gate satisfies the statement for every cell and every allowed outcome, then emits one behaviour per cell with the expected reply classes / unchanged / no-data / authenticated-afterwards. The harness executes each behaviour against real servers (leader, follower of a stalling fake leader, follower of a real leader, READONLY, requirepass with fresh / wrong-password / authenticated connections, protected mode with a loopback and a 192.0.2.2 peer) under 10 wrappers (plain, TIMEOUT, EVAL/EVALRO/EVALNA tile38.call, JSON output, native protocol, HTTP without / with right / with wrong Authorization) and compares reply class, dataset projection + aof_size before/after, marker disclosure, and an authentication probe.",
         "note": "A command is checked with the argument shapes of harness/gates/templates.go only. Only the first reply of a detaching command is examined. Servers run with DevMode off. TLS and unix-socket peers are not covered.",
     },
+    "C16": {
+        "level": "model_checking",
+        "technique": "TLA+ Proto spec (byte-level framing of RESP/telnet/native/HTTP, carry-over buffer, message loop) with ProtoGen (every segmentation of every small stream; SplitInvariant/OnePerCommand model-checked), ProtoSim (long pipelines, values above the read buffer) and ProtoMal (every single-operator mutation + random bytes; Contained model-checked); TLC's streams, cuts and malformed inputs sent as literal bytes to real servers (model->code conformance)",
+        "text": "TLC enumerates every stream of <=2 (thorough: 3) frames over five request syntaxes and every segmentation of it, checking SplitInvariant, OnePerCommand and CarryIncomplete on the design; each stream is sent to real servers unsplit, under every 2-way cut (every 3-way cut for the small alphabet), byte-at-a-time and random k-way cuts, and the parsed reply sequence (number, order, transport, encoding, content) must equal the unsplit run's and the specification's; a sample of segments is verified through NETLINK_SOCK_DIAG to have been consumed before the next write. Long streams from ProtoSim (pipelines of 1500/5000 frames, 200 KB values) are cut at 2-way positions, fixed sizes around the 64 KiB read buffer and random k-way. Malformed input: every single-operator mutation (delete/duplicate/replace/insert/truncate at every position; RESP count, bulk length, native length, Content-Length with negative/empty/non-numeric/off-by-one/huge/2^63-1/2^63 values; quoting and HTTP request-line variants) plus TLC-simulated random byte strings go to tile38-server subprocesses, one per connection with a bystander connection: outcome (replies, close, waiting) as specified, bystander answered, process alive. TLC refutes Contained for the parser as coded before the fix.",
+        "note": "Reply texts of mutated commands are not compared. WebSocket upgrade, OPTIONS preflight, QUIT and OUTPUT switching are not modelled; lengths of more than 9 digits are classes (huge / within 800 of 2^63-1). Coalesced TCP segments reduce coverage, never cause alarms.",
+    },
     "C19": {
         "level": "model_checking",
         "technique": "TLA+ Index spec (incremental bookkeeping) model-checked; TLC transition cover of kind-changing histories replayed with an in-package audit and black-box recomputation after every step",
